@@ -8,6 +8,7 @@ import IncanModel.Driver.C07
 import IncanModel.Driver.C08
 import IncanModel.Driver.C09
 import IncanModel.Driver.C10
+import IncanModel.Driver.C12
 import IncanModel.Driver.C13
 import IncanModel.Driver.C14
 import IncanModel.Driver.C15
@@ -31,6 +32,7 @@ def dispatch (line : String) : String :=
   | "c08" :: rest => handleC08 rest
   | "c09" :: rest => handleC09 rest
   | "c10" :: rest => handleC10 rest
+  | "c12" :: rest => handleC12 rest
   | "c13" :: rest => handleC13 rest
   | "c14" :: rest => handleC14 rest
   | "c15" :: rest => handleC15 rest
